@@ -73,6 +73,8 @@ def run(repo, rep):
     rule_round5(repo, rep)
     rep.clause("C05-g", "HillClimb: a trial that may stop early re-initialises, for every range, each per-trial field the permutation step reads off ranges it did not reach")
     rule_trial_state(repo, rep)
+    rep.clause("C05-h", "HillClimb: the search runs only on allocations strictly above the peak live sum (its candidate selection needs a bottleneck above address 0)")
+    rule_search_precondition(repo, rep)
     from .shared import duplicate_branch_lint
 
     duplicate_branch_lint(repo, rep, "C05-c", ['tensor_allocation', 'greedy_allocation', 'hillclimb_allocation', 'live_range'])
@@ -490,6 +492,30 @@ def rule_trial_state(repo, rep):
         rep.bad("C05-g", site, f"`{fld}` is re-initialised for every range before a trial that may stop early",
                 f"the trial loop leaves at line {early[0].lineno} before all ranges are placed, `{fld}` is only written for the ranges reached, and {unguarded[fld][0]} reads it off every range: "
                 "a range of an older trial becomes the bottleneck (ValueError 'empty range in randrange(0, 0)' for 6 ranges with sizes 8 .. 8016) or its predecessor chain is followed")
+
+
+
+def rule_search_precondition(repo, rep):
+    """(h) attempt_bottleneck_fix draws two different turns from the ranges that affected the bottleneck (`randint(0, len(turn_list) - 2)`);
+    that list has at least two entries only if the bottleneck lies above address 0, i.e. the allocation is *above* the peak sum of live
+    sizes. The search is therefore entered only for best_size > min_required_size (strict) and left as soon as best_size <= min_required_size."""
+    m = repo.mod("hillclimb_allocation")
+    f = m.func("HillClimbAllocator.allocate")
+    site = "ethosu/vela/hillclimb_allocation.py:HillClimbAllocator.allocate"
+    guards = [i for i in ast.walk(f) if isinstance(i, ast.If) and any(isinstance(c, ast.Call) and str(norm(c.func)) == "self.search" for st in i.body for c in ast.walk(st))]
+    calls = [c for c in ast.walk(f) if isinstance(c, ast.Call) and str(norm(c.func)) == "self.search"]
+    if len(calls) != 1:
+        raise AnalysisError("HillClimbAllocator.allocate: call of search() not found")
+    want = comparison(ast.parse("self.best_size > self.min_required_size", mode="eval").body)
+    ok = len(guards) == 1 and comparison(guards[0].test) == want
+    rep.check(ok, "C05-h", site, "search() is entered only if best_size > min_required_size (strict)",
+              f"`{str(norm(guards[0].test)) if guards else 'unguarded'}`: for an optimal first allocation whose largest range sits alone at address 0 the candidate list has one entry: "
+              "ValueError 'empty range in randrange(0, 0)' instead of an allocation (single live range, ranges never live together)")
+    g = m.func("HillClimbAllocator.search")
+    rets = [i for i in ast.walk(g) if isinstance(i, ast.If) and i.body and isinstance(i.body[-1], ast.Return) and "min_required_size" in str(norm(i.test))]
+    want2 = comparison(ast.parse("self.best_size <= self.min_required_size", mode="eval").body)
+    rep.check(len(rets) == 1 and comparison(rets[0].test) == want2, "C05-h", "ethosu/vela/hillclimb_allocation.py:HillClimbAllocator.search", "search() returns as soon as best_size <= min_required_size",
+              f"{[str(norm(i.test)) for i in rets]}")
 
 
 def _canon(form):
